@@ -13,6 +13,7 @@ import Mathlib.Tactic.Ring
 import UflVerif.Sem.Congr
 import UflVerif.Sem.Sum
 import UflVerif.Sem.FI
+import UflVerif.Sem.Beq
 
 namespace UflVerif.C05
 open UflVerif Expr
@@ -239,7 +240,7 @@ theorem C05_mkIndexSum (ρ : Env K) (s : Side) : ∀ (a : Expr) (j : Nat) (ι : 
   | case3 x p q j hp ih =>
     intro ι r hw h hu c hc
     simp only [WF, Bool.and_eq_true, List.isEmpty_iff] at hw
-    obtain ⟨⟨⟨wp, wq⟩, sp⟩, sq⟩ := hw
+    obtain ⟨⟨⟨⟨wp, wq⟩, sp⟩, sq⟩, _⟩ := hw
     simp only [shape, List.length_nil, List.length_eq_zero_iff] at hc
     subst hc
     obtain ⟨sb, hsb, usb, hr⟩ := bindU_some _ _ r h hu
@@ -253,7 +254,7 @@ theorem C05_mkIndexSum (ρ : Env K) (s : Side) : ∀ (a : Expr) (j : Nat) (ι : 
   | case4 x p q j hp hq ih =>
     intro ι r hw h hu c hc
     simp only [WF, Bool.and_eq_true, List.isEmpty_iff] at hw
-    obtain ⟨⟨⟨wp, wq⟩, sp⟩, sq⟩ := hw
+    obtain ⟨⟨⟨⟨wp, wq⟩, sp⟩, sq⟩, _⟩ := hw
     simp only [shape, List.length_nil, List.length_eq_zero_iff] at hc
     subst hc
     obtain ⟨sa, hsa, usa, hr⟩ := bindU_some _ _ r h hu
@@ -276,5 +277,805 @@ theorem C05_mkIndexSum (ρ : Env K) (s : Side) : ∀ (a : Expr) (j : Nat) (ι : 
   | case7 e j h1 h2 hj =>
     intro ι r _ h
     simp [hj] at h
+
+
+/-! ## closure: what the constructors build is well formed, with the expected free indices -/
+
+open FIlemmas
+
+/-- pointwise agreement of two free-index lists (same indices, same extents) -/
+def FIeq (f g : FI) : Prop := ∀ i, FI.has i f = FI.has i g ∧ FI.dimOf i f = FI.dimOf i g
+
+theorem FIeq.rfl' (f : FI) : FIeq f f := fun _ => ⟨rfl, rfl⟩
+
+theorem mkLit_wf (i : Bool) (q : ℚ) : WF (mkLit i q) = true := by
+  unfold mkLit; split
+  · simp [WF, sortedFI]
+  · split <;> simp [WF]
+
+theorem mkSum_wf (a b r : Expr) (ha : WF a = true) (hb : WF b = true) (h : mkSum a b = some r)
+    (hu : isUnsupported r = false) : WF r = true := by
+  unfold mkSum at h
+  split at h
+  · cases h
+  · rename_i hsf
+    simp only [ne_eq, Bool.or_eq_true, decide_eq_true_eq, not_or, Decidable.not_not] at hsf
+    split at h
+    · simp only [Option.some.injEq] at h; subst h; exact hb
+    · split at h
+      · simp only [Option.some.injEq] at h; subst h; exact ha
+      · split at h
+        · simp only [Option.some.injEq] at h; subst h; exact mkLit_wf _ _
+        · split at h
+          · simp only [Option.some.injEq] at h; subst h; simp [isUnsupported, unsupported] at hu
+          · split at h
+            · simp only [Option.some.injEq] at h; subst h; simp [WF, ha, hb, hsf.1, hsf.2]
+            · split at h
+              · simp only [Option.some.injEq] at h; subst h; simp [WF, ha, hb, hsf.1, hsf.2]
+              · simp only [Option.some.injEq] at h; subst h
+                cases sort2_perm a b with
+                | inl e => rw [e]; simp [WF, ha, hb, hsf.1, hsf.2]
+                | inr e => rw [e]; simp [WF, ha, hb, hsf.1, hsf.2]
+
+theorem merge_nil_has (f : FI) (i : Nat) : FI.has i (FI.merge [] f) = FI.has i f := by
+  rw [has_merge]; simp [FI.has]
+
+theorem dim_nothas (f : FI) (i : Nat) (hi : FI.has i f = false) : FI.dimOf i f = 0 := by
+  unfold FI.dimOf
+  have : f.find? (fun p => p.1 == i) = none := by
+    rw [List.find?_eq_none]
+    intro p hp he
+    simp only [beq_iff_eq] at he
+    have : FI.has i f = true := (has_iff i f).mpr ⟨p, hp, he⟩
+    rw [hi] at this; cases this
+  simp [this]
+
+/-- free indices of a merged list, for an index that belongs to at most one side -/
+theorem merge_dims (a b : FI) (sa : Sorted a) (i : Nat) :
+    (FI.has i a = false → FI.dimOf i (FI.merge a b) = FI.dimOf i b) ∧
+    (FI.has i b = false → FI.dimOf i (FI.merge a b) = FI.dimOf i a) := by
+  refine ⟨fun h => dimOf_merge_right a b i sa h, fun h => ?_⟩
+  by_cases hi : FI.has i a = true
+  · exact dimOf_merge_left a b i sa hi
+  · have hi' : FI.has i a = false := by simpa using hi
+    rw [dimOf_merge_right a b i sa hi', dim_nothas _ _ h, dim_nothas _ _ hi']
+
+theorem merge_dim (a b : FI) (sa : Sorted a) (i : Nat) :
+    FI.dimOf i (FI.merge a b) = if FI.has i a = true then FI.dimOf i a else FI.dimOf i b := by
+  by_cases hi : FI.has i a = true
+  · simp [hi, dimOf_merge_left a b i sa hi]
+  · have hi' : FI.has i a = false := by simpa using hi
+    simp [hi', dimOf_merge_right a b i sa hi']
+
+theorem merge_dim_swap (a b : FI) (sb : Sorted b) (hd : DimsAgree a b) (i : Nat) :
+    FI.dimOf i (FI.merge b a) = if FI.has i a = true then FI.dimOf i a else FI.dimOf i b := by
+  rw [merge_dim b a sb i]
+  by_cases ha : FI.has i a = true <;> by_cases hb : FI.has i b = true
+  · simp [ha, hb, hd i ha hb]
+  · simp [ha, hb]
+  · simp [ha, hb]
+  · have ha' : FI.has i a = false := by simpa using ha
+    have hb' : FI.has i b = false := by simpa using hb
+    simp [ha', hb', dim_nothas _ _ ha', dim_nothas _ _ hb']
+
+theorem mkProduct_wf (a b r : Expr) (ha : WF a = true) (hb : WF b = true) (hd : DimsAgree (fi a) (fi b))
+    (h : mkProduct a b = some r) (hu : isUnsupported r = false) :
+    WF r = true ∧ shape r = [] ∧ (∀ i, FI.has i (fi r) = (FI.has i (fi a) || FI.has i (fi b))) ∧
+    (∀ i, FI.dimOf i (fi r) = if FI.has i (fi a) = true then FI.dimOf i (fi a) else FI.dimOf i (fi b)) := by
+  have ab := fun i => merge_dim (fi a) (fi b) (fi_sorted a ha) i
+  have ba := fun i => merge_dim_swap (fi a) (fi b) (fi_sorted b hb) hd i
+  have dab : dimsAgree (fi a) (fi b) = true := (dimsAgree_iff _ _ (fi_sorted a ha)).mpr hd
+  have dba : dimsAgree (fi b) (fi a) = true := (dimsAgree_iff _ _ (fi_sorted b hb)).mpr hd.symm
+  unfold mkProduct at h
+  split at h
+  · cases h
+  · rename_i hsh
+    simp only [Bool.or_eq_true, Bool.not_eq_true', List.isEmpty_eq_false_iff, not_or, ne_eq, Decidable.not_not] at hsh
+    split at h
+    · simp only [Option.some.injEq] at h; subst h
+      refine ⟨?_, by simp [shape], fun i => by simp only [fi]; exact has_merge _ _ i, fun i => by simp only [fi]; exact ab i⟩
+      simp only [WF]; exact (sortedFI_iff _).mpr (merge_sorted _ _ (fi_sorted a ha))
+    · split at h
+      · rename_i ia va ib vb hla hlb
+        simp only [Option.some.injEq] at h; subst h
+        have sa := lit_shape a ia va hla; have sb := lit_shape b ib vb hlb
+        exact ⟨mkLit_wf _ _, (mkLit_shape _ _).1, fun i => by simp [(mkLit_shape _ _).2, sa.2, sb.2, FI.has],
+          fun i => by simp [(mkLit_shape _ _).2, sa.2, sb.2, FI.has]⟩
+      · rename_i ia va hla hlb
+        have sa := lit_shape a ia va hla
+        split at h
+        · simp only [Option.some.injEq] at h; subst h; simp [isUnsupported, unsupported] at hu
+        · split at h
+          · simp only [Option.some.injEq] at h; subst h
+            exact ⟨hb, hsh.2, fun i => by simp [sa.2, FI.has], fun i => by simp [sa.2, FI.has]⟩
+          · simp only [Option.some.injEq] at h; subst h
+            exact ⟨by simp [WF, ha, hb, hsh.1, hsh.2, dab], by simp [shape], fun i => by simp only [fi]; exact has_merge _ _ i, fun i => by simp only [fi]; exact ab i⟩
+      · rename_i ib vb hla hlb
+        have sb := lit_shape b ib vb hlb
+        split at h
+        · simp only [Option.some.injEq] at h; subst h; simp [isUnsupported, unsupported] at hu
+        · split at h
+          · simp only [Option.some.injEq] at h; subst h
+            refine ⟨ha, hsh.1, fun i => by simp [sb.2, FI.has], fun i => ?_⟩
+            by_cases hi : FI.has i (fi a) = true
+            · simp [hi]
+            · have hi' : FI.has i (fi a) = false := by simpa using hi
+              rw [hi', dim_nothas _ _ hi', sb.2]; rfl
+          · simp only [Option.some.injEq] at h; subst h
+            exact ⟨by simp [WF, ha, hb, hsh.1, hsh.2, dba], by simp [shape], fun i => by simp only [fi]; rw [has_merge, Bool.or_comm], fun i => by simp only [fi]; exact ba i⟩
+      · split at h
+        · simp only [Option.some.injEq] at h; subst h; simp [isUnsupported, unsupported] at hu
+        · simp only [Option.some.injEq] at h; subst h
+          cases sort2_perm a b with
+          | inl e =>
+            rw [e]
+            exact ⟨by simp [WF, ha, hb, hsh.1, hsh.2, dab], by simp [shape], fun i => by simp only [fi]; exact has_merge _ _ i, fun i => by simp only [fi]; exact ab i⟩
+          | inr e =>
+            rw [e]
+            exact ⟨by simp [WF, ha, hb, hsh.1, hsh.2, dba], by simp [shape], fun i => by simp only [fi]; rw [has_merge, Bool.or_comm], fun i => by simp only [fi]; exact ba i⟩
+
+theorem dimOf_remove_self (j : Nat) (f : FI) : FI.dimOf j (FI.remove j f) = 0 :=
+  dim_nothas _ _ (by rw [has_remove]; simp)
+
+/-- what `IndexSum(a, j)` builds is well formed, has the shape of a and its free indices minus j -/
+theorem mkIndexSum_wf : ∀ (a : Expr) (j : Nat) (r : Expr), WF a = true → mkIndexSum a j = some r → isUnsupported r = false →
+    WF r = true ∧ shape r = shape a ∧ (∀ i, FI.has i (fi r) = (FI.has i (fi a) && decide (i ≠ j))) ∧
+    (∀ i, i ≠ j → FI.dimOf i (fi r) = FI.dimOf i (fi a)) := by
+  intro a j
+  fun_induction mkIndexSum a j with
+  | case1 sh f j hj =>
+    intro r hw h _
+    simp only [Option.some.injEq] at h; subst h
+    simp only [WF] at hw
+    refine ⟨?_, by simp [shape], fun i => by simp only [fi]; exact has_remove j f i, fun i hi => by simp only [fi]; exact dimOf_remove i j hi f⟩
+    simp only [WF]; exact (sortedFI_iff _).mpr (remove_sorted _ _ ((sortedFI_iff f).mp hw))
+  | case2 sh f j hj => intro r _ h; cases h
+  | case3 x p q j hp ih =>
+    intro r hw h hu
+    simp only [WF, Bool.and_eq_true, List.isEmpty_iff] at hw
+    obtain ⟨⟨⟨⟨wp, wq⟩, sp⟩, sq⟩, dpq⟩ := hw
+    have dpq' := (dimsAgree_iff _ _ (fi_sorted p wp)).mp dpq
+    obtain ⟨sb, hsb, usb, hr⟩ := bindU_some _ _ r h hu
+    have hp' : FI.has j (fi p) = false := by simpa using hp
+    obtain ⟨wsb, ssb, hassb, dimsb⟩ := ih sb wq hsb usb
+    have dag : DimsAgree (fi p) (fi sb) := by
+      intro i h1 h2
+      rw [hassb] at h2
+      simp only [Bool.and_eq_true, decide_eq_true_eq] at h2
+      rw [dimsb i h2.2]; exact dpq' i h1 h2.1
+    obtain ⟨wr, sr, hasr, dimr⟩ := mkProduct_wf p sb r wp wsb dag hr hu
+    refine ⟨wr, by rw [sr]; simp [shape], fun i => ?_, fun i hi => ?_⟩
+    · rw [hasr, hassb]; simp only [fi]; rw [has_merge]
+      by_cases hij : i = j
+      · subst hij; simp [hp']
+      · simp [hij]
+    · rw [dimr]; simp only [fi]; rw [merge_dim _ _ (fi_sorted p wp), dimsb i hi]
+  | case4 x p q j hp hq ih =>
+    intro r hw h hu
+    simp only [WF, Bool.and_eq_true, List.isEmpty_iff] at hw
+    obtain ⟨⟨⟨⟨wp, wq⟩, sp⟩, sq⟩, dpq⟩ := hw
+    have dpq' := (dimsAgree_iff _ _ (fi_sorted p wp)).mp dpq
+    obtain ⟨sa, hsa, usa, hr⟩ := bindU_some _ _ r h hu
+    have hq' : FI.has j (fi q) = false := by simpa using hq
+    obtain ⟨wsa, ssa, hassa, dimsa⟩ := ih sa wp hsa usa
+    have dag : DimsAgree (fi q) (fi sa) := by
+      intro i h1 h2
+      rw [hassa] at h2
+      simp only [Bool.and_eq_true, decide_eq_true_eq] at h2
+      rw [dimsa i h2.2]; exact (dpq' i h2.1 h1).symm
+    obtain ⟨wr, sr, hasr, dimr⟩ := mkProduct_wf q sa r wq wsa dag hr hu
+    refine ⟨wr, by rw [sr]; simp [shape], fun i => ?_, fun i hi => ?_⟩
+    · rw [hasr, hassa]; simp only [fi]; rw [has_merge]
+      by_cases hij : i = j
+      · subst hij; simp [hq']
+      · simp [hij, Bool.or_comm]
+    · rw [dimr]; simp only [fi]; rw [merge_dim _ _ (fi_sorted p wp), dimsa i hi]
+      by_cases h1 : FI.has i (fi p) = true <;> by_cases h2 : FI.has i (fi q) = true
+      · simp [h1, h2, dpq' i h1 h2]
+      · have h2' : FI.has i (fi q) = false := by simpa using h2
+        simp [h1, h2']
+      · have h1' : FI.has i (fi p) = false := by simpa using h1
+        simp [h1', h2]
+      · have h1' : FI.has i (fi p) = false := by simpa using h1
+        have h2' : FI.has i (fi q) = false := by simpa using h2
+        simp [h1', h2', dim_nothas _ _ h1', dim_nothas _ _ h2']
+  | case5 x p q j hp hq =>
+    intro r hw h _
+    simp only [Option.some.injEq] at h; subst h
+    have hp' : FI.has j (fi p) = true := by simpa using hp
+    refine ⟨?_, by simp [shape], fun i => by simp only [fi]; exact has_remove j _ i, fun i hi => by simp only [fi]; exact dimOf_remove i j hi _⟩
+    have : WF (.op .indexSum [] [.op .product x [p, q], .mi [.free j]]) = (WF (.op .product x [p, q]) && FI.has j (fi (.op .product x [p, q]))) := by
+      simp only [WF]
+    rw [this, hw]
+    simp only [fi, Bool.true_and]; rw [has_merge, hp']; rfl
+  | case6 e j h1 h2 hj =>
+    intro r hw h _
+    simp only [hj, ↓reduceIte, Option.some.injEq] at h; subst h
+    refine ⟨by simp [WF, hw, hj], by simp [shape], fun i => by simp only [fi]; exact has_remove j _ i, fun i hi => by simp only [fi]; exact dimOf_remove i j hi _⟩
+  | case7 e j h1 h2 hj =>
+    intro r _ h
+    simp [hj] at h
+
+
+/-! ## Indexed -/
+
+theorem insertChecked_eq (p : Nat × Nat) : ∀ (f f' : FI), FI'.insertChecked p f = some f' → f' = FI.insert p f
+  | [], f', h => by simp [FI'.insertChecked] at h; simp [FI.insert, h]
+  | q :: qs, f', h => by
+    unfold FI'.insertChecked at h
+    unfold FI.insert
+    split at h
+    · rename_i hlt; simp only [Option.some.injEq] at h; simp [hlt, h]
+    · rename_i hlt
+      split at h
+      · rename_i heq
+        split at h
+        · simp only [Option.some.injEq] at h; simp [hlt, heq, h]
+        · cases h
+      · rename_i hne
+        simp only [Option.map_eq_some_iff] at h
+        obtain ⟨g, hg, rfl⟩ := h
+        simp [hlt, hne, insertChecked_eq p qs g hg]
+
+/-- when the consistency check of `Indexed.__init__` passes, the free indices are those computed by `fi` -/
+theorem indexedFI_eq (sh : List Nat) : ∀ (ps : List (Idx × Nat)) (f f' : FI), (∀ p ∈ ps, p.2 < sh.length) →
+    ps.foldl (fun acc p => match acc, p.1 with
+      | none, _ => none
+      | some f, .free c => (match sh[p.2]? with
+          | some d => FI'.insertChecked (c, d) f
+          | none => none)
+      | some f, .fixed _ => some f) (some f) = some f' →
+    f' = (idxPairs sh ps).foldl (fun acc p => FI.insert p acc) f
+  | [], f, f', _, h => by simp at h; simp [idxPairs, h]
+  | (.fixed v, k) :: ps, f, f', hr, h => by
+    simp only [List.foldl_cons] at h
+    simp only [idxPairs]
+    exact indexedFI_eq sh ps f f' (fun p hp => hr p (by simp [hp])) h
+  | (.free c, k) :: ps, f, f', hr, h => by
+    simp only [List.foldl_cons] at h
+    have hk : k < sh.length := hr (.free c, k) (by simp)
+    have hget : sh[k]? = some (sh.getD k 0) := by simp [List.getD, hk]
+    simp only [hget] at h
+    cases hi : FI'.insertChecked (c, sh.getD k 0) f with
+    | none =>
+      rw [hi] at h
+      have : ∀ (qs : List (Idx × Nat)), qs.foldl (fun acc p => match acc, p.1 with
+          | none, _ => none
+          | some f, .free c => (match sh[p.2]? with
+              | some d => FI'.insertChecked (c, d) f
+              | none => none)
+          | some f, .fixed _ => some f) (none : Option FI) = none := by
+        intro qs; induction qs with
+        | nil => rfl
+        | cons q qs ih => simp only [List.foldl_cons]; exact ih
+      rw [this] at h; cases h
+    | some g =>
+      rw [hi] at h
+      simp only [idxPairs, List.foldl_cons]
+      rw [← insertChecked_eq _ _ _ hi]
+      exact indexedFI_eq sh ps g f' (fun p hp => hr p (by simp [hp])) h
+
+theorem zipIdx_lt {α : Type} (l : List α) : ∀ p ∈ l.zipIdx, p.2 < l.length := by
+  intro p hp
+  have := List.mem_zipIdx hp
+  omega
+
+theorem indexedFI_spec (A : Expr) (is : List Idx) (f' : FI) (hl : is.length = (shape A).length)
+    (h : indexedFI (fi A) (shape A) is = some f') : f' = fi (.op .indexed [] [A, .mi is]) := by
+  unfold indexedFI at h
+  simp only [fi]
+  exact indexedFI_eq (shape A) is.zipIdx (fi A) f' (fun p hp => by have := zipIdx_lt is p hp; omega) h
+
+theorem dimOf_foldl_insert_other (i : Nat) : ∀ (ps : List (Nat × Nat)) (f : FI), Sorted f → (∀ p ∈ ps, p.1 ≠ i) →
+    FI.dimOf i (ps.foldl (fun acc p => FI.insert p acc) f) = FI.dimOf i f
+  | [], f, _, _ => rfl
+  | p :: ps, f, hs, hne => by
+    simp only [List.foldl_cons]
+    rw [dimOf_foldl_insert_other i ps _ (insert_sorted p f hs) (fun q hq => hne q (by simp [hq])), dimOf_insert p i f hs]
+    have : ¬ p.1 = i := hne p (by simp)
+    simp [this]
+
+theorem idxPairs_counts (sh : List Nat) : ∀ (ps : List (Idx × Nat)) (p : Nat × Nat), p ∈ idxPairs sh ps → (Idx.free p.1) ∈ ps.map (·.1)
+  | [], p, h => by simp [idxPairs] at h
+  | (.fixed v, k) :: ps, p, h => by
+    simp only [idxPairs] at h
+    simp only [List.map_cons, List.mem_cons]
+    exact Or.inr (idxPairs_counts sh ps p h)
+  | (.free c, k) :: ps, p, h => by
+    simp only [idxPairs, List.mem_cons] at h
+    simp only [List.map_cons, List.mem_cons]
+    cases h with
+    | inl e => left; rw [e]
+    | inr e => exact Or.inr (idxPairs_counts sh ps p e)
+
+theorem indexed_fi_facts (A : Expr) (is : List Idx) (hw : WF A = true) :
+    Sorted (fi (.op .indexed [] [A, .mi is])) ∧
+    (∀ i, FI.has i (fi (.op .indexed [] [A, .mi is])) = (FI.has i (fi A) || is.contains (.free i))) ∧
+    (∀ i, is.contains (.free i) = false → FI.dimOf i (fi (.op .indexed [] [A, .mi is])) = FI.dimOf i (fi A)) := by
+  refine ⟨by simp only [fi]; exact foldl_insert_sorted _ _ (fi_sorted A hw), fun i => has_indexed_fi A is [] i, fun i hi => ?_⟩
+  simp only [fi]
+  apply dimOf_foldl_insert_other i _ _ (fi_sorted A hw)
+  intro p hp e
+  have := idxPairs_counts (shape A) is.zipIdx p hp
+  simp only [List.zipIdx_map_fst] at this
+  rw [e] at this
+  have hc : is.contains (.free i) = true := by simpa using this
+  rw [hi] at hc; cases hc
+
+/-- the plain `Indexed` node: well formed, scalar, with the expected free indices and value -/
+theorem plainIndexed_spec (ρ : Env K) (s : Side) (A : Expr) (is : List Idx) (r : Expr) (hw : WF A = true)
+    (h : plainIndexed A is = some r) :
+    WF r = true ∧ shape r = [] ∧ (∀ i, FI.has i (fi r) = (FI.has i (fi A) || is.contains (.free i))) ∧
+    (∀ i, is.contains (.free i) = false → FI.dimOf i (fi r) = FI.dimOf i (fi A)) ∧
+    ∀ ι, eval ρ s ι r [] = eval ρ s ι A (is.map (Idx.resolve ι)) := by
+  unfold plainIndexed at h
+  simp only at h
+  split at h
+  · cases h
+  · rename_i hl
+    split at h
+    · cases h
+    · rename_i hr
+      split at h
+      · rename_i f' hf
+        simp only [Option.some.injEq] at h; subst h
+        have hl' : is.length = (shape A).length := by have := hl; simp only [ne_eq, Decidable.not_not] at this; exact this.symm
+        refine ⟨?_, by simp [shape], fun i => has_indexed_fi A is [] i, fun i hi => ?_, fun ι => by simp [eval]⟩
+        · simp only [WF, Bool.and_eq_true, beq_iff_eq]
+          refine ⟨⟨⟨hw, hl'⟩, ?_⟩, by simp [hf]⟩
+          simp only [Bool.not_eq_true, List.any_eq_false] at hr
+          simp only [fixedInRange, List.all_eq_true]
+          intro p hp
+          have := hr p hp
+          cases hp1 : p.1 with
+          | fixed v => simp only [hp1, decide_eq_false_iff_not, Nat.not_le] at this; simpa using this
+          | free c => rfl
+        · simp only [fi]
+          apply dimOf_foldl_insert_other i _ _ (fi_sorted A hw)
+          intro p hp e
+          have := idxPairs_counts (shape A) is.zipIdx p hp
+          simp only [List.zipIdx_map_fst] at this
+          rw [e] at this
+          have hc : is.contains (.free i) = true := by simpa using this
+          rw [hi] at hc; cases hc
+      · cases h
+
+
+/-- what `Indexed(A, is)` must be: a well-formed scalar whose free indices are those of A plus the
+    free indices of `is`, and whose value is the component of A that `is` selects -/
+def IdxSpec (ρ : Env K) (s : Side) (A : Expr) (is : List Idx) (r : Expr) : Prop :=
+  WF r = true ∧ shape r = [] ∧ (∀ i, FI.has i (fi r) = (FI.has i (fi A) || is.contains (.free i))) ∧
+  (∀ i, is.contains (.free i) = false → FI.dimOf i (fi r) = FI.dimOf i (fi A)) ∧
+  ∀ ι, eval ρ s ι r [] = eval ρ s ι A (is.map (Idx.resolve ι))
+
+/- The part of `ComponentTensor._simplify_indexed` that rewrites `as_tensor(C[kk], jj)[is]` to
+   `C[kk with jj := is]` is covered by the correspondence and the value oracle only; the theorem below
+   is for expressions in which no component tensor has a plain `Indexed` node as its body
+   (the shortcut then never fires and the indexing stays a plain node). -/
+mutual
+def Hyg : Expr → Bool
+  | .op .componentTensor _ (.op .indexed _ _ :: _) => false
+  | .op _ _ args => HygL args
+  | _ => true
+def HygL : List Expr → Bool
+  | [] => true
+  | a :: as => Hyg a && HygL as
+end
+
+theorem resolve_set_irrelevant (ι : IdxEnv) (j v : Nat) : ∀ (is : List Idx), is.contains (.free j) = false →
+    is.map (Idx.resolve (ι.set j v)) = is.map (Idx.resolve ι)
+  | [], _ => rfl
+  | .fixed w :: is, h => by
+    simp only [List.contains_cons, Bool.or_eq_false_iff] at h
+    simp only [List.map_cons, Idx.resolve, resolve_set_irrelevant ι j v is h.2]
+  | .free c :: is, h => by
+    simp only [List.contains_cons, Bool.or_eq_false_iff, beq_eq_false_iff_ne, ne_eq, Idx.free.injEq] at h
+    have : ¬ c = j := fun e => h.1 e.symm
+    simp only [List.map_cons, Idx.resolve, resolve_set_irrelevant ι j v is h.2, IdxEnv.set, this, ↓reduceIte]
+
+theorem evalNth_get (ρ : Env K) (s : Side) (ι : IdxEnv) : ∀ (xs : List Expr) (v : Nat) (row : Expr) (c : List Nat),
+    xs[v]? = some row → evalNth ρ s ι xs v c = eval ρ s ι row c
+  | [], v, row, c, h => by simp at h
+  | x :: xs, 0, row, c, h => by simp at h; subst h; simp [evalNth]
+  | x :: xs, v + 1, row, c, h => by
+    simp only [List.getElem?_cons_succ] at h
+    simp only [evalNth]; exact evalNth_get ρ s ι xs v row c h
+
+theorem wfl_get : ∀ (xs : List Expr) (v : Nat) (row : Expr), WFL xs = true → xs[v]? = some row → WF row = true
+  | [], v, row, _, h => by simp at h
+  | x :: xs, 0, row, hw, h => by simp at h; subst h; simp only [WFL, Bool.and_eq_true] at hw; exact hw.1
+  | x :: xs, v + 1, row, hw, h => by
+    simp only [List.getElem?_cons_succ] at h
+    simp only [WFL, Bool.and_eq_true] at hw
+    exact wfl_get xs v row hw.2 h
+
+theorem hygl_get : ∀ (xs : List Expr) (v : Nat) (row : Expr), HygL xs = true → xs[v]? = some row → Hyg row = true
+  | [], v, row, _, h => by simp at h
+  | x :: xs, 0, row, hw, h => by simp at h; subst h; simp only [HygL, Bool.and_eq_true] at hw; exact hw.1
+  | x :: xs, v + 1, row, hw, h => by
+    simp only [List.getElem?_cons_succ] at h
+    simp only [HygL, Bool.and_eq_true] at hw
+    exact hygl_get xs v row hw.2 h
+
+theorem fixedInRange_tail (n : Nat) (sh : List Nat) (k : Idx) (ks : List Idx) (h : fixedInRange (n :: sh) (k :: ks) = true) :
+    fixedInRange sh ks = true := by
+  simp only [fixedInRange, List.all_eq_true] at h ⊢
+  intro p hp
+  have hm : (p.1, p.2 + 1) ∈ (k :: ks).zipIdx := by
+    rw [List.zipIdx_cons]
+    simp only [List.mem_cons]
+    right
+    rw [List.mem_zipIdx_iff_getElem?] at hp
+    rw [List.mem_zipIdx_iff_le_and_getElem?_sub]
+    simpa using hp
+  have := h (p.1, p.2 + 1) hm
+  simpa using this
+
+
+theorem contains_free_cons_fixed (v : Nat) (ks : List Idx) (i : Nat) :
+    (Idx.fixed v :: ks).contains (.free i) = ks.contains (.free i) := by
+  simp [List.contains_cons]
+
+/-- **`Indexed(A, is)` with every `_simplify_indexed` shortcut**: the result is a well-formed
+    scalar with the free indices of A plus those of `is`, and its value is the selected component. -/
+theorem mkIndexedF_spec (ρ : Env K) (s : Side) : ∀ (fuel : Nat) (A : Expr) (is : List Idx) (r : Expr),
+    WF A = true → Hyg A = true → mkIndexedF fuel A is = some r → isUnsupported r = false →
+    is.length = (shape A).length → fixedInRange (shape A) is = true → IdxSpec ρ s A is r := by
+  intro fuel
+  induction fuel with
+  | zero => intro A is r _ _ h; simp [mkIndexedF] at h
+  | succ fuel ih =>
+    intro A is r hw hy h hu hl hr
+    cases is with
+    | nil =>
+      simp only [mkIndexedF, Option.some.injEq] at h
+      have hs : shape A = [] := by simpa using hl.symm
+      rw [← h]
+      exact ⟨hw, hs, fun i => by simp, fun i _ => rfl, fun ι => by simp⟩
+    | cons k ks =>
+      unfold mkIndexedF at h
+      simp only at h
+      split at h
+      · -- Zero
+        rename_i sh f
+        split at h
+        · rename_i f' hf
+          simp only [Option.some.injEq] at h; subst h
+          have e := indexedFI_spec (.zero sh f) (k :: ks) f' hl (by simpa [fi, shape] using hf)
+          obtain ⟨f1, f2, f3⟩ := indexed_fi_facts (.zero sh f) (k :: ks) hw
+          refine ⟨?_, by simp [shape], fun i => by simp only [fi] at f2 ⊢; rw [e]; exact f2 i,
+            fun i hi => by simp only [fi] at f3 ⊢; rw [e]; exact f3 i hi, fun ι => by simp [eval]⟩
+          simp only [WF]; rw [e]
+          exact (sortedFI_iff _).mpr f1
+        · cases h
+      · -- Sum
+        rename_i x a b
+        obtain ⟨xa, hxa, uxa, h⟩ := bindU_some _ _ r h hu
+        obtain ⟨xb, hxb, uxb, h⟩ := bindU_some _ _ r h hu
+        simp only [WF, Bool.and_eq_true, beq_iff_eq] at hw
+        obtain ⟨⟨⟨wa, wb⟩, hs⟩, hf⟩ := hw
+        have hya : Hyg a = true ∧ Hyg b = true := by simpa [Hyg, HygL] using hy
+        simp only [shape] at hl hr
+        obtain ⟨w1, s1, has1, dim1, ev1⟩ := ih a (k :: ks) xa wa hya.1 hxa uxa hl hr
+        obtain ⟨w2, s2, has2, dim2, ev2⟩ := ih b (k :: ks) xb wb hya.2 hxb uxb (by rw [← hs]; exact hl) (by rw [← hs]; exact hr)
+        obtain ⟨ev, shr, fir⟩ := C05_mkSum ρ s (fun _ => 0) xa xb r h hu
+        refine ⟨mkSum_wf xa xb r w1 w2 h hu, by rw [shr, s1], fun i => by rw [fir]; simp only [fi]; exact has1 i,
+          fun i hi => by rw [fir]; simp only [fi]; exact dim1 i hi, fun ι => ?_⟩
+        rw [(C05_mkSum ρ s ι xa xb r h hu).1 [], ev1 ι, ev2 ι]
+        simp [eval]
+      · -- IndexSum
+        rename_i x A' j
+        split at h
+        · exact plainIndexed_spec ρ s _ _ r hw h
+        · rename_i hj
+          have hj' : (k :: ks).contains (.free j) = false := by simpa using hj
+          obtain ⟨xa, hxa, uxa, h⟩ := bindU_some _ _ r h hu
+          simp only [WF, Bool.and_eq_true] at hw
+          have hyA : Hyg A' = true := by simpa [Hyg, HygL] using hy
+          simp only [shape] at hl hr
+          obtain ⟨w1, s1, has1, dim1, ev1⟩ := ih A' (k :: ks) xa hw.1 hyA hxa uxa hl hr
+          obtain ⟨wr, sr, hasr, dimr⟩ := mkIndexSum_wf xa j r w1 h hu
+          refine ⟨wr, by rw [sr, s1], fun i => ?_, fun i hi => ?_, fun ι => ?_⟩
+          · rw [hasr, has1]; simp only [fi]; rw [has_remove]
+            by_cases hij : i = j
+            · subst hij; rw [hj']; simp
+            · simp [hij]
+          · simp only [fi]
+            by_cases hij : i = j
+            · subst hij
+              rw [dimOf_remove_self, dim_nothas]
+              rw [hasr]; simp
+            · rw [dimr i hij, dim1 i hi, dimOf_remove i j hij]
+          · rw [C05_mkIndexSum ρ s xa j ι r w1 h hu [] (by simp [s1])]
+            simp only [eval]
+            rw [sumRange_eq_sum, dim1 j hj']
+            apply Finset.sum_congr rfl
+            intro v _
+            rw [ev1 (ι.set j v), resolve_set_irrelevant ι j v (k :: ks) hj']
+      · -- ListTensor
+        rename_i x xs
+        cases k with
+        | free c => exact plainIndexed_spec ρ s _ _ r hw h
+        | fixed v =>
+          simp only at h
+          cases hrow : xs[v]? with
+          | none => simp [hrow] at h
+          | some row =>
+            simp only [hrow] at h
+            cases xs with
+            | nil => simp at hrow
+            | cons x0 rest =>
+              simp only [WF, Bool.and_eq_true, List.all_eq_true, beq_iff_eq] at hw
+              obtain ⟨⟨w0, wr⟩, hsame⟩ := hw
+              have wfl : WFL (x0 :: rest) = true := by simp [WFL, w0, wr]
+              have wrow := wfl_get _ v row wfl hrow
+              have hyl : HygL (x0 :: rest) = true := by simpa [Hyg] using hy
+              have hyrow := hygl_get _ v row hyl hrow
+              have hrow_in : row ∈ x0 :: rest := List.mem_of_getElem? hrow
+              have srow : shape row = shape x0 ∧ fi row = fi x0 := by
+                cases List.mem_cons.mp hrow_in with
+                | inl e => rw [e]; exact ⟨rfl, rfl⟩
+                | inr e => exact hsame row e
+              simp only [shape] at hl hr
+              have hl' : ks.length = (shape row).length := by rw [srow.1]; simpa using hl
+              have hr' : fixedInRange (shape row) ks = true := by rw [srow.1]; exact fixedInRange_tail _ _ _ _ hr
+              obtain ⟨w1, s1, has1, dim1, ev1⟩ := ih row ks r wrow hyrow h hu hl' hr'
+              refine ⟨w1, s1, fun i => ?_, fun i hi => ?_, fun ι => ?_⟩
+              · rw [has1, contains_free_cons_fixed]; simp only [fi]; rw [srow.2]
+              · rw [contains_free_cons_fixed] at hi
+                rw [dim1 i hi]; simp only [fi]; rw [srow.2]
+              · rw [ev1 ι]
+                simp only [List.map_cons, Idx.resolve, eval]
+                rw [evalNth_get ρ s ι _ v row _ hrow]
+      · -- ComponentTensor: the body is not a plain Indexed node, so no shortcut applies
+        rename_i x B jj
+        split at h
+        · cases h
+        · have hB : ∀ y args, B ≠ .op .indexed y args := by
+            intro y args e; subst e; simp [Hyg] at hy
+          split at h
+          · rename_i heq
+            split at heq
+            · rename_i y rows kk; exact absurd rfl (hB _ _)
+            · simp only at heq
+              exact absurd heq (hB _ _)
+          · exact plainIndexed_spec ρ s _ _ r hw h
+      · -- anything else
+        exact plainIndexed_spec ρ s _ _ r hw h
+
+
+/-- `Indexed(A, MultiIndex(is))` as built by the class, for every expression in which no component
+    tensor has a plain `Indexed` body (see the note at `Hyg`): zero folding, distribution over sums,
+    indexing inside index sums (never with the summation index itself), selection of a list-tensor
+    row by a fixed index, and the plain node. -/
+theorem C05_mkIndexed_partial (ρ : Env K) (s : Side) (A : Expr) (is : List Idx) (r : Expr)
+    (hw : WF A = true) (hy : Hyg A = true) (h : mkIndexed A is = some r) (hu : isUnsupported r = false)
+    (hl : is.length = (shape A).length) (hr : fixedInRange (shape A) is = true) : IdxSpec ρ s A is r :=
+  mkIndexedF_spec ρ s (A.size + 1) A is r hw hy h hu hl hr
+
+/-! ## ComponentTensor -/
+
+theorem bind_not_mem (i : Nat) : ∀ (cs c : List Nat) (ι : IdxEnv), cs.contains i = false →
+    (ι.bind (cs.map Idx.free) c) i = ι i
+  | [], _, ι, _ => by simp [IdxEnv.bind]
+  | j :: cs, [], ι, _ => by simp [IdxEnv.bind]
+  | j :: cs, v :: c, ι, h => by
+    simp only [List.contains_cons, Bool.or_eq_false_iff, beq_eq_false_iff_ne, ne_eq] at h
+    simp only [List.map_cons, IdxEnv.bind]
+    rw [bind_not_mem i cs c _ h.2]
+    simp [IdxEnv.set, h.1]
+
+theorem bind_resolve : ∀ (cs c : List Nat) (ι : IdxEnv), nodupNat cs = true → cs.length = c.length →
+    (cs.map Idx.free).map (Idx.resolve (ι.bind (cs.map Idx.free) c)) = c
+  | [], [], _, _, _ => rfl
+  | j :: cs, v :: c, ι, hn, hl => by
+    simp only [nodupNat, Bool.and_eq_true, Bool.not_eq_true'] at hn
+    simp only [List.map_cons, IdxEnv.bind, Idx.resolve]
+    rw [bind_not_mem j cs c _ hn.1]
+    have := bind_resolve cs c (ι.set j v) hn.2 (by simpa using hl)
+    rw [this]; simp [IdxEnv.set]
+  | [], _ :: _, _, _, hl => by simp at hl
+  | _ :: _, [], _, _, hl => by simp at hl
+
+/-- `ComponentTensor(a, MultiIndex(is))` = `as_tensor(a, is)`: component c is the value of a with
+    the bound indices set to c.  For the shortcut `as_tensor(A[is], is) → A` the bound indices
+    must be distinct and not free in A (a repeated index is summed by the public operators, so
+    bodies built through them satisfy this). -/
+theorem C05_mkComponentTensor (ρ : Env K) (s : Side) (ι : IdxEnv) (a : Expr) (is : List Idx) (r : Expr)
+    (hw : WF a = true) (h : mkComponentTensor a is = some r)
+    (hsc : ∀ x A, a = .op .indexed x [A, .mi is] → ∃ cs, allFree is = some cs ∧ nodupNat cs = true ∧ ∀ j ∈ cs, FI.has j (fi A) = false)
+    (c : List Nat) (hc : c.length = is.length) :
+    eval ρ s ι r c = eval ρ s (ι.bind is c) a [] := by
+  unfold mkComponentTensor at h
+  split at h
+  · cases h
+  · rename_i cs hcs
+    obtain ⟨_, h2, h3⟩ := allFree_spec is cs hcs
+    split at h
+    · rename_i sh f
+      split at h
+      · simp only [Option.some.injEq] at h; subst h; simp [eval]
+      · cases h
+    · rename_i hnz
+      simp only [Option.orElse] at h
+      split at h
+      · rename_i x heq
+        split at heq
+        · rename_i y A ii
+          split at heq
+          · rename_i hii
+            simp only [Option.some.injEq] at heq
+            simp only [Option.some.injEq] at h
+            subst hii
+            rw [← heq] at h; subst h
+            obtain ⟨cs', hcs', hn, hd⟩ := hsc y A rfl
+            rw [hcs] at hcs'; simp only [Option.some.injEq] at hcs'; subst hcs'
+            simp only [WF, Bool.and_eq_true, beq_iff_eq] at hw
+            obtain ⟨⟨⟨wA, hlA⟩, _⟩, _⟩ := hw
+            simp only [eval]
+            rw [h3, bind_resolve cs c ι hn (by omega)]
+            symm
+            apply eval_congr ρ s A wA c (by omega)
+            intro i hi
+            apply bind_not_mem i cs c ι
+            rw [Bool.eq_false_iff]
+            intro hic
+            have := hd i (by simpa using hic)
+            rw [this] at hi; cases hi
+          · cases heq
+        · cases heq
+      · split at h
+        · cases h
+        · split at h
+          · simp only [Option.some.injEq] at h; subst h; simp [eval]
+          · cases h
+
+
+/-! ## Conditional -/
+
+/-- `Conditional(c, t, f)`: t where c holds, f elsewhere; equal branches fold to the branch -/
+theorem C05_mkConditional (ρ : Env K) (s : Side) (ι : IdxEnv) (c t f r : Expr) (h : mkConditional c t f = some r)
+    (comp : List Nat) :
+    eval ρ s ι r comp = if evalB ρ s ι c then eval ρ s ι t comp else eval ρ s ι f comp := by
+  unfold mkConditional at h
+  split at h
+  · rename_i htf
+    simp only [Option.some.injEq] at h; subst h
+    have := eq_of_beq_inst t f htf
+    subst this; simp
+  · split at h
+    · cases h
+    · split at h
+      · cases h
+      · split at h
+        · split at h
+          · simp only [Option.some.injEq] at h; subst h; simp [eval]
+          · cases h
+        · split at h
+          · simp only [Option.some.injEq] at h; subst h; simp [eval]
+          · cases h
+        · simp only [Option.some.injEq] at h; subst h; simp [eval]
+
+/-! ## ListTensor -/
+
+theorem evalNth_zero (ρ : Env K) (s : Side) (ι : IdxEnv) : ∀ (xs : List Expr) (v : Nat) (c : List Nat),
+    xs.all isZero = true → evalNth ρ s ι xs v c = 0
+  | [], v, c, _ => by simp [evalNth]
+  | x :: xs, 0, c, h => by
+    simp only [List.all_cons, Bool.and_eq_true] at h
+    simp only [evalNth]; exact eval_zero ρ s ι x h.1 c
+  | x :: xs, v + 1, c, h => by
+    simp only [List.all_cons, Bool.and_eq_true] at h
+    simp only [evalNth]; exact evalNth_zero ρ s ι xs v c h.2
+
+theorem allSome_get {α : Type} : ∀ (os : List (Option α)) (ys : List α), allSome os = some ys →
+    ∀ k : Nat, os[k]? = (ys[k]?).map some
+  | [], ys, h, k => by simp [allSome] at h; subst h; simp
+  | some x :: os, ys, h, k => by
+    simp only [allSome, Option.map_eq_some_iff] at h
+    obtain ⟨ys', hy, rfl⟩ := h
+    cases k with
+    | zero => simp
+    | succ k => simpa using allSome_get os ys' hy k
+  | none :: os, ys, h, k => by simp [allSome] at h
+
+theorem indexedParts_eq (x b : Expr) (is : List Idx) (h : indexedParts x = some (b, is)) :
+    ∃ aux, x = .op .indexed aux [b, .mi is] := by
+  unfold indexedParts at h
+  split at h
+  · simp only [Option.some.injEq, Prod.mk.injEq] at h; obtain ⟨rfl, rfl⟩ := h; exact ⟨_, rfl⟩
+  · cases h
+
+theorem singleton_of_dropLast_nil {α : Type} (l : List α) (a : α) (h1 : l.dropLast = []) (h2 : l.getLast? = some a) : l = [a] := by
+  cases l with
+  | nil => simp at h2
+  | cons x xs =>
+    cases xs with
+    | nil => simp at h2; rw [h2]
+    | cons y ys => simp [List.dropLast] at h1
+
+/-- `ListTensor(*xs)`: component (v, c') is component c' of the v-th entry.  Covered: the plain
+    node, the all-zero folding, and the collapse `[A[0], A[1], .., A[n-1]] → A` of a vector A;
+    the collapse of rows of component tensors is excluded by `hno` (correspondence/oracle only). -/
+theorem C05_mkListTensor_partial (ρ : Env K) (s : Side) (ι : IdxEnv) (xs : List Expr) (r : Expr)
+    (h : mkListTensor xs = some r) (hu : isUnsupported r = false)
+    (hno : ∃ x ∈ xs, ctIndexedParts x = none) (v : Nat) (hv : v < xs.length) (c' : List Nat)
+    (hc : ∀ x ∈ xs, c'.length = (shape x).length) :
+    eval ρ s ι r (v :: c') = evalNth ρ s ι xs v c' := by
+  unfold mkListTensor at h
+  cases xs with
+  | nil => cases h
+  | cons e0 rest =>
+    simp only at h
+    split at h
+    · cases h
+    · split at h
+      · rename_i hz
+        simp only [Option.some.injEq] at h; subst h
+        rw [evalNth_zero ρ s ι _ v c' hz]; simp [eval]
+      · split at h
+        · -- rule 1: rows are base[0], base[1], ...
+          rename_i r1 hr1
+          simp only [Option.some.injEq] at h; subst h
+          split at hr1
+          · rename_i base i0 ps hall
+            split at hr1
+            · rename_i hcond
+              simp only [Bool.and_eq_true, List.all_eq_true, beq_iff_eq, decide_eq_true_eq] at hcond
+              obtain ⟨⟨⟨hlast, hbase⟩, hpre⟩, hfix⟩ := hcond
+              split at hr1
+              · rename_i hnil
+                simp only [Option.some.injEq] at hr1; subst hr1
+                have hnil' : i0.dropLast = [] := by simpa using hnil
+                -- the v-th row
+                obtain ⟨xv, hxv⟩ : ∃ xv, (e0 :: rest)[v]? = some xv := ⟨_, List.getElem?_eq_getElem hv⟩
+                have hk := allSome_get _ _ hall v
+                rw [List.getElem?_map, hxv] at hk
+                simp only [Option.map_some] at hk
+                cases hp : ((base, i0) :: ps)[v]? with
+                | none => rw [hp] at hk; simp at hk
+                | some p =>
+                  rw [hp] at hk
+                  simp only [Option.map_some, Option.some.injEq] at hk
+                  obtain ⟨aux, hx⟩ := indexedParts_eq xv p.1 p.2 hk
+                  have hmem : (p, v) ∈ ((base, i0) :: ps).zipIdx := by
+                    rw [List.mem_zipIdx_iff_getElem?]; exact hp
+                  have hfixv := hfix (p, v) hmem
+                  simp only at hfixv
+                  have hp1 : p.1 = base ∧ p.2.dropLast = [] := by
+                    cases v with
+                    | zero => simp at hp; subst hp; exact ⟨rfl, hnil'⟩
+                    | succ v' =>
+                      have hin : p ∈ ps := by
+                        simp only [List.getElem?_cons_succ] at hp
+                        exact List.mem_of_getElem? hp
+                      exact ⟨eq_of_beq_inst _ _ (hbase p hin), by rw [hpre p hin]; exact hnil'⟩
+                  have his : p.2 = [.fixed v] := singleton_of_dropLast_nil _ _ hp1.2 hfixv
+                  rw [evalNth_get ρ s ι _ v xv c' hxv, hx, hp1.1, his]
+                  have hc0 : c' = [] := by
+                    have := hc xv (List.mem_of_getElem? hxv)
+                    rw [hx] at this
+                    simpa [shape] using this
+                  subst hc0
+                  simp [eval, Idx.resolve]
+              · simp only [Option.some.injEq] at hr1; subst hr1
+                simp [isUnsupported, unsupported] at hu
+            · cases hr1
+          · cases hr1
+        · split at h
+          · -- rule 2 is excluded by hypothesis
+            rename_i r2 hr2
+            exfalso
+            obtain ⟨x, hx, hnone⟩ := hno
+            split at hr2
+            · rename_i base i0 j0 ps hall
+              obtain ⟨k, hk⟩ := List.getElem?_of_mem hx
+              have := allSome_get _ _ hall k
+              rw [List.getElem?_map, hk] at this
+              simp only [Option.map_some, hnone] at this
+              cases hq : ((base, i0, j0) :: ps)[k]? <;> simp [hq] at this
+            · cases hr2
+          · simp only [Option.some.injEq] at h; subst h
+            simp [eval]
 
 end UflVerif.C05
